@@ -215,8 +215,12 @@ def index_ok(a, st, base_loc, base_type, idx):
         sizes = set(a.alloc_size.get(unwrap(a, c)) for c in cands)
         if len(sizes) == 1 and None not in sizes:
             heap = sizes.pop()
+    fill = getattr(a, 'fill_size', {}).get(unwrap(a, cval)) if cval is not None else None
     if alen is not None:
         cap = {(): Fraction(alen)}
+    elif fill is not None:
+        # a container built by the fill constructor and not resized since
+        cap = upoly(a, fill)
     elif heap is not None:
         cap = upoly(a, heap)
     else:
